@@ -163,3 +163,110 @@ Definition merge_check (c : list string * string * bool * option (list string)) 
 (* (raw lines, observed merged statements of the whole front end; None = IndexError) *)
 Definition front_check (c : list string * option (list string)) : bool :=
   opt_strs_eqb (front_end (map of_s (fst c))) (snd c).
+
+(* ================================================================== the code after the repairs of F41 and F40
+   (the definitions above stay: they are the transcription of the code as it was, and the _refuted lemmas are about them;
+   the harness picks the variant per finding by its status in known_findings.json) *)
+
+(* ---- F41 repaired:  while merged[i].endswith(delimiter) and i + k < len(merged):
+   running off the end of the list ends the loop (the statement keeps its trailing mark) instead of raising IndexError;
+   the function is total, hence no option type *)
+Fixpoint absorb_fixed (d : ascii) (remove : bool) (cur : str) (rest : list str) : str * list str :=
+  if ends_with d cur then
+    match rest with
+    | [] => (cur, [])                                              (* i + k = len: the guard ends the loop *)
+    | x :: rest' => absorb_fixed d remove ((if remove then drop_last cur else cur) ++ x) rest'
+    end
+  else (cur, rest).
+
+Fixpoint merge_raw_fixed (fuel : nat) (d : ascii) (remove : bool) (ls : list str) : list str :=
+  match fuel with
+  | 0 => ls
+  | S f =>
+    match ls with
+    | [] => []
+    | [x] => [x]                                                   (* index len-1 is outside range(len-1), as before *)
+    | x :: rest => let (c, rest') := absorb_fixed d remove x rest in c :: merge_raw_fixed f d remove rest'
+    end
+  end.
+
+Definition merge_fixed (d : ascii) (remove : bool) (ls : list str) : list str :=
+  map strip (merge_raw_fixed (List.length ls) d remove ls).
+
+(* same interface as [merge_continued] (never None) *)
+Definition merge_continued_fixed (d : ascii) (remove : bool) (ls : list str) : option (list str) :=
+  Some (merge_fixed d remove ls).
+
+Definition merge_all_fixed (ls : list str) : list str :=
+  merge_fixed lbrace false (merge_fixed comma false (merge_fixed amp true ls)).
+Definition front_end_fixed (ls : list str) : list str := merge_all_fixed (clean ls).
+
+(* variant selection by the status of F41: false = the code as it was, true = the repaired code *)
+Definition merge_continued_v (f41_fixed : bool) (d : ascii) (remove : bool) (ls : list str) : option (list str) :=
+  if f41_fixed then merge_continued_fixed d remove ls else merge_continued d remove ls.
+Definition front_end_v (f41_fixed : bool) (ls : list str) : option (list str) :=
+  if f41_fixed then Some (front_end_fixed ls) else front_end ls.
+
+Definition merge_check_v (f41_fixed : bool) (c : list string * string * bool * option (list string)) : bool :=
+  match c with
+  | (ls, d, rm, obs) =>
+    match of_s d with
+    | [dc] => opt_strs_eqb (merge_continued_v f41_fixed dc rm (map of_s ls)) obs
+    | _ => false
+    end
+  end.
+Definition front_check_v (f41_fixed : bool) (c : list string * option (list string)) : bool :=
+  opt_strs_eqb (front_end_v f41_fixed (map of_s (fst c))) (snd c).
+
+(* ---- F40: the head of an element definition, the re.fullmatch of define_element with the pattern
+       NAME \s* : \s* TYPE ( , REST )?             NAME = [a-z0-9_.]+   TYPE = [a-z0-9_]+   REST = any characters but newline
+   (as it was), and with  \s*  inserted between TYPE and the optional group (repaired).
+   The character classes of consecutive pattern items are disjoint (name / white space / colon / type / comma), so the greedy
+   match is the only one: backtracking a run to a shorter one leaves a character of the run's own class in front of an item
+   that cannot take it.  Result: (name, type, text behind the first comma); None = no match (the code then raises
+   AttributeError: NoneType object has no attribute group). *)
+Definition between (lo hi n : nat) : bool := (lo <=? n) && (n <=? hi).
+Definition type_char (c : ascii) : bool :=
+  let n := nat_of_ascii c in between 97 122 n || between 48 57 n || (n =? 95).          (* [a-z0-9_] *)
+Definition name_char (c : ascii) : bool := type_char c || (nat_of_ascii c =? 46).         (* [a-z0-9_\.] *)
+Definition colon : ascii := ":"%char.
+Definition newline (c : ascii) : bool := nat_of_ascii c =? 10.                            (* '.' matches all but \n *)
+
+Fixpoint take_while (p : ascii -> bool) (s : str) : str :=
+  match s with c :: r => if p c then c :: take_while p r else [] | [] => [] end.
+Fixpoint drop_while (p : ascii -> bool) (s : str) : str :=
+  match s with c :: r => if p c then drop_while p r else s | [] => [] end.
+
+Definition define_tail (rest : str) : option (option str) :=
+  match rest with
+  | [] => Some None
+  | c :: props => if Ascii.eqb c comma && negb (existsb newline props) then Some (Some props) else None
+  end.
+
+Definition define_header (f40_fixed : bool) (line : str) : option (str * str * option str) :=
+  let name := take_while name_char line in
+  match name, drop_while is_space (drop_while name_char line) with
+  | _ :: _, c :: r2 =>
+    if Ascii.eqb c colon then
+      let r3 := drop_while is_space r2 in
+      let ty := take_while type_char r3 in
+      let r4 := drop_while type_char r3 in
+      match ty with
+      | [] => None
+      | _ :: _ =>
+        match define_tail (if f40_fixed then drop_while is_space r4 else r4) with
+        | Some props => Some (name, ty, props)
+        | None => None
+        end
+      end
+    else None
+  | _, _ => None
+  end.
+
+(* (line, observed (element name, element type) of define_element; None = AttributeError) *)
+Definition define_check_v (f40_fixed : bool) (c : string * option (string * string)) : bool :=
+  match define_header f40_fixed (of_s (fst c)), snd c with
+  | Some (n, t, _), Some (n', t') => str_eqb n (of_s n') && str_eqb t (of_s t')
+  | None, None => true
+  | _, _ => false
+  end.
